@@ -82,10 +82,112 @@ class Sym:
         return Sym(("neg", self))
 
     def _bad(self, *a, **k):
-        raise BrokenTie("traced code applies an unsupported operation (comparison/conversion) to a symbolic number")
+        raise BrokenTie("traced code applies an unsupported operation (conversion) to a symbolic number")
 
-    __float__ = __int__ = __bool__ = __lt__ = __le__ = __gt__ = __ge__ = __abs__ = __floordiv__ = __mod__ = _bad
+    __float__ = __int__ = __bool__ = __abs__ = __floordiv__ = __mod__ = _bad
     __hash__ = object.__hash__
+
+    # comparisons are decided by the path oracle (every outcome is explored by `explore`): `a <= b` is the atom, `a < b` is
+    # `not (b <= a)` (the numbers are never NaN where these builds run)
+    def __le__(self, other):
+        return _decide(("le", Sym.lift(self), Sym.lift(other)))
+
+    def __ge__(self, other):
+        return _decide(("le", Sym.lift(other), Sym.lift(self)))
+
+    def __lt__(self, other):
+        return not _decide(("le", Sym.lift(other), Sym.lift(self)))
+
+    def __gt__(self, other):
+        return not _decide(("le", Sym.lift(self), Sym.lift(other)))
+
+
+class _Oracle:
+    def __init__(self, forced):
+        self.forced = list(forced)
+        self.trace = []
+
+    def decide(self, cond):
+        i = len(self.trace)
+        out = self.forced[i] if i < len(self.forced) else True
+        self.trace.append((cond, out))
+        return out
+
+
+_ORACLE = None
+
+
+def _decide(cond):
+    if _ORACLE is None:
+        raise BrokenTie("traced code compares symbolic numbers outside a path exploration")
+    return _ORACLE.decide(cond)
+
+
+def explore(run, max_paths=16):
+    """run() executes the traced code once under the current oracle and returns its result (or raises ValueError = the
+    documented refusal).  All outcomes of all comparisons on symbolic numbers are explored; returns a decision tree
+    ("leaf", result | None) | ("if", ("le", a, b), tree_true, tree_false)."""
+    global _ORACLE
+    paths = []
+    todo = [[]]
+    while todo:
+        forced = todo.pop()
+        if len(paths) >= max_paths:
+            raise BrokenTie("more than %d paths through the traced build" % max_paths)
+        _ORACLE = _Oracle(forced)
+        try:
+            try:
+                res = run()
+            except ValueError:
+                res = None
+            tr = list(_ORACLE.trace)
+        finally:
+            _ORACLE = None
+        paths.append((tr, res))
+        for i in range(len(forced), len(tr)):
+            todo.append([o for _, o in tr[:i]] + [False])
+
+    def build(prefix):
+        here = [(tr, res) for tr, res in paths if [o for _, o in tr[: len(prefix)]] == prefix]
+        if not here:
+            raise BrokenTie("path exploration lost a branch")
+        tr0 = here[0][0]
+        if len(tr0) == len(prefix):
+            return ("leaf", here[0][1])
+        cond = tr0[len(prefix)][0]
+        return ("if", cond, build(prefix + [True]), build(prefix + [False]))
+
+    return build([])
+
+
+def tree_map(tree, f_leaf, f_sym):
+    if tree[0] == "leaf":
+        return ("leaf", None if tree[1] is None else f_leaf(tree[1]))
+    _, (op, a, b), t, e = tree
+    return ("if", (op, f_sym(a), f_sym(b)), tree_map(t, f_leaf, f_sym), tree_map(e, f_leaf, f_sym))
+
+
+def tree_key(tree, k_leaf):
+    if tree[0] == "leaf":
+        return ("leaf", None if tree[1] is None else k_leaf(tree[1]))
+    _, (op, a, b), t, e = tree
+    return ("if", op, sym_key(a), sym_key(b), tree_key(t, k_leaf), tree_key(e, k_leaf))
+
+
+def tree_leaves(tree, acc):
+    if tree[0] == "leaf":
+        acc.append(tree[1])
+    else:
+        tree_leaves(tree[2], acc)
+        tree_leaves(tree[3], acc)
+    return acc
+
+
+def tree_lean(tree, leaf_lean, ind="  "):
+    if tree[0] == "leaf":
+        return ind + ("none" if tree[1] is None else "some (%s)" % leaf_lean(tree[1]))
+    _, (op, a, b), t, e = tree
+    return "%sif O.le %s %s then\n%s\n%selse\n%s" % (ind, sym_lean(a, None, False), sym_lean(b, None, False), tree_lean(t, leaf_lean, ind + "  "), ind, tree_lean(e, leaf_lean, ind + "  "))
 
 
 def sym_lean(s, names=None, top=True):
@@ -172,73 +274,135 @@ class _FakeUpdater:
         pass
 
 
-def trace_pdd_spline_inputs():
-    """run pdd_poly_coeffs_param.build on symbolic pmin/pnom/delta/slope/exponent for the 8 own/None combinations;
-    returns (inputs1, inputs2, sel) -- six Syms each over leaves pmin pnom delta slope e; sel = rows
-    (ownPmin, ownPnom, ownExp, srcPmin, srcPnom, srcExp) with src in own|glob|unused"""
+def _sym_node(own):
+    return types.SimpleNamespace(
+        name="N",
+        minimum_pressure=Sym.leaf("own_pmin") if own[0] else None,
+        required_pressure=Sym.leaf("own_pnom") if own[1] else None,
+        pressure_exponent=Sym.leaf("own_e") if own[2] else None,
+    )
+
+
+def _sym_wn(node):
+    hyd = types.SimpleNamespace(
+        minimum_pressure=Sym.leaf("glob_pmin"), required_pressure=Sym.leaf("glob_pnom"), pressure_exponent=Sym.leaf("glob_e")
+    )
+    return types.SimpleNamespace(options=types.SimpleNamespace(hydraulic=hyd), get_node=lambda n, node=node: node, junction_name_list=["N"])
+
+
+def _canon_roles(syms_used):
+    """own_/glob_ leaves -> roles; returns (src triple, renaming)"""
+    src, ren = [], {}
+    for role in ("pmin", "pnom", "e"):
+        o, g = "own_" + role, "glob_" + role
+        if o in syms_used and g in syms_used:
+            raise BrokenTie("the traced build mixes the junction's and the global %s" % role)
+        if o in syms_used:
+            src.append("own")
+            ren[o] = role
+        elif g in syms_used:
+            src.append("glob")
+            ren[g] = role
+        else:
+            src.append("unused")
+    return tuple(src), ren
+
+
+def _tree_syms(tree, leaf_syms):
+    used = set()
+
+    def walk(t):
+        if t[0] == "leaf":
+            if t[1] is not None:
+                for x in leaf_syms(t[1]):
+                    used.update(sym_leaves(x))
+        else:
+            used.update(sym_leaves(t[1][1]))
+            used.update(sym_leaves(t[1][2]))
+            walk(t[2])
+            walk(t[3])
+
+    walk(tree)
+    return used
+
+
+def trace_pdd_build():
+    """run pdd_poly_coeffs_param.build on symbolic pmin/pnom/delta/slope/exponent for the 8 own/None combinations, exploring
+    every outcome of every comparison; returns (tree, sel): the decision tree (leaves: None = ValueError, else
+    (value stored in m.pdd_delta, six arguments of the lower-band cubic_spline call, six of the upper-band call)) over leaves
+    pmin pnom delta slope e, and sel = rows (ownPmin, ownPnom, ownExp, srcPmin, srcPnom, srcExp) with src in own|glob|unused"""
     from wntr.sim.models import param
-    from wntr.sim import aml
 
-    results = []
-    for own in itertools.product((False, True), repeat=3):
-        node = types.SimpleNamespace(
-            name="N",
-            minimum_pressure=Sym.leaf("own_pmin") if own[0] else None,
-            required_pressure=Sym.leaf("own_pnom") if own[1] else None,
-            pressure_exponent=Sym.leaf("own_e") if own[2] else None,
-        )
-        hyd = types.SimpleNamespace(
-            minimum_pressure=Sym.leaf("glob_pmin"), required_pressure=Sym.leaf("glob_pnom"), pressure_exponent=Sym.leaf("glob_e")
-        )
-        wn = types.SimpleNamespace(options=types.SimpleNamespace(hydraulic=hyd), get_node=lambda n, node=node: node, junction_name_list=["N"])
-        m = types.SimpleNamespace(pdd_smoothing_delta=Sym.leaf("delta"), pdd_slope=Sym.leaf("slope"))
-        calls = []
-
-        def rec(*args):
-            if len(args) != 6:
-                raise BrokenTie("cubic_spline is called with %d arguments in pdd_poly_coeffs_param" % len(args))
-            calls.append([Sym.lift(a) for a in args])
-            return 0.0, 0.0, 0.0, 0.0
-
-        saved = param.cubic_spline
-        param.cubic_spline = rec
-        try:
-            param.pdd_poly_coeffs_param.build(m, wn, _FakeUpdater(), index_over=["N"])
-        finally:
-            param.cubic_spline = saved
-        if len(calls) != 2:
-            raise BrokenTie("pdd_poly_coeffs_param.build calls cubic_spline %d times (expected 2: lower and upper band)" % len(calls))
-        # which poly dicts got which call: poly1 must be the first, poly2 the second (values are dummies; order is the code's)
-        results.append((own, calls))
-    # canonical form: rename own_/glob_ leaves to roles; all 8 combos must agree
     canon = None
     sel = []
-    for own, calls in results:
-        used = set()
-        for c in calls:
-            for s in c:
-                used.update(sym_leaves(s))
-        src = []
-        ren = {}
-        for role in ("pmin", "pnom", "e"):
-            o, g = "own_" + role, "glob_" + role
-            if o in used and g in used:
-                raise BrokenTie("pdd_poly_coeffs_param mixes the junction's and the global %s" % role)
-            if o in used:
-                src.append("own")
-                ren[o] = role
-            elif g in used:
-                src.append("glob")
-                ren[g] = role
-            else:
-                src.append("unused")
-        sel.append((own, tuple(src)))
-        keyed = [[sym_key(sym_rename(s, ren)) for s in c] for c in calls]
+    for own in itertools.product((False, True), repeat=3):
+        node = _sym_node(own)
+        wn = _sym_wn(node)
+
+        def run():
+            m = types.SimpleNamespace(pdd_smoothing_delta=Sym.leaf("delta"), pdd_slope=Sym.leaf("slope"))
+            calls = []
+
+            def rec(*args):
+                if len(args) != 6:
+                    raise BrokenTie("cubic_spline is called with %d arguments in pdd_poly_coeffs_param" % len(args))
+                calls.append([Sym.lift(a) for a in args])
+                return 0.0, 0.0, 0.0, 0.0
+
+            saved = param.cubic_spline
+            param.cubic_spline = rec
+            try:
+                param.pdd_poly_coeffs_param.build(m, wn, _FakeUpdater(), index_over=["N"])
+            finally:
+                param.cubic_spline = saved
+            if len(calls) != 2:
+                raise BrokenTie("pdd_poly_coeffs_param.build calls cubic_spline %d times (expected 2: lower and upper band)" % len(calls))
+            if not hasattr(m, "pdd_delta") or "N" not in m.pdd_delta:
+                raise BrokenTie("pdd_poly_coeffs_param.build stores no per-junction band width m.pdd_delta[j] (the smoothing bands "
+                                "of a junction with Preq - Pmin < 2*pdd_smoothing_delta overlap)")
+            return (Sym.lift(m.pdd_delta["N"].value), calls[0], calls[1])
+
+        tree = explore(run)
+        used = _tree_syms(tree, lambda l: [l[0]] + l[1] + l[2])
+        src, ren = _canon_roles(used)
+        sel.append((own, src))
+        rn = lambda x: sym_rename(x, ren)
+        tree = tree_map(tree, lambda l: (rn(l[0]), [rn(x) for x in l[1]], [rn(x) for x in l[2]]), rn)
+        key = tree_key(tree, lambda l: (sym_key(l[0]), [sym_key(x) for x in l[1]], [sym_key(x) for x in l[2]]))
         if canon is None:
-            canon = (keyed, [[sym_rename(s, ren) for s in c] for c in calls])
-        elif keyed != canon[0]:
+            canon = (key, tree)
+        elif key != canon[0]:
             raise BrokenTie("pdd_poly_coeffs_param computes different spline inputs depending on which overrides are set")
-    return canon[1][0], canon[1][1], sel
+    return canon[1], sel
+
+
+def trace_pnom_build():
+    """pnom_param.build on a symbolic required pressure: decision tree with leaves None (ValueError) | value of m.pnom[j]"""
+    from wntr.sim.models import param
+
+    canon = None
+    for own in (False, True):
+        node = _sym_node((False, own, False))
+        wn = _sym_wn(node)
+
+        def run():
+            m = types.SimpleNamespace(pdd_smoothing_delta=Sym.leaf("delta"), pdd_slope=Sym.leaf("slope"))
+            param.pnom_param.build(m, wn, _FakeUpdater(), index_over=["N"])
+            return Sym.lift(m.pnom["N"].value)
+
+        tree = explore(run)
+        used = _tree_syms(tree, lambda l: [l])
+        src, ren = _canon_roles(used)
+        if src[1] != ("own" if own else "glob"):
+            raise BrokenTie("pnom_param.build reads the %s required pressure for a junction %s its own" % (src[1], "with" if own else "without"))
+        rn = lambda x: sym_rename(x, ren)
+        tree = tree_map(tree, rn, rn)
+        key = tree_key(tree, sym_key)
+        if canon is None:
+            canon = (key, tree)
+        elif key != canon[0]:
+            raise BrokenTie("pnom_param.build treats own and global required pressure differently")
+    return canon[1]
 
 
 def trace_leak_spline_inputs():
@@ -276,6 +440,7 @@ def _inputs_def(name, params, six):
 
 GLOB = dict(minimum_pressure=1.5, required_pressure=24.0, pressure_exponent=0.625)
 OWN = dict(minimum_pressure=3.25, required_pressure=31.0, pressure_exponent=0.8)
+NARROW = dict(minimum_pressure=3.25, required_pressure=3.3125)
 
 
 def build_zoo(wntr, mode, tank_leak=True):
@@ -305,6 +470,11 @@ def build_zoo(wntr, mode, tank_leak=True):
     wn.add_pipe("PJL", "J010", "JL", length=100.0, diameter=0.3, roughness=100.0)
     wn.add_junction("JI", base_demand=0.003, elevation=6.0)
     wn.add_pipe("PJI", "JL", "JI", length=100.0, diameter=0.3, roughness=100.0)
+    # a junction whose own Preq - Pmin = 0.0625 < 2*delta (dyadic numbers: the float arithmetic of the build is exact)
+    wn.add_junction("JN", base_demand=0.004, elevation=1.0)
+    wn.get_node("JN").minimum_pressure = NARROW["minimum_pressure"]
+    wn.get_node("JN").required_pressure = NARROW["required_pressure"]
+    wn.add_pipe("PJN", "J000", "JN", length=100.0, diameter=0.3, roughness=100.0)
     h = wn.options.hydraulic
     h.demand_model = mode
     h.minimum_pressure = GLOB["minimum_pressure"]
@@ -365,7 +535,15 @@ def reflect(wntr, mode, tank_leak=True):
         m, updater = H.create_hydraulic_model(wn)
     except Exception as e:
         raise BrokenTie("create_hydraulic_model fails on the zoo network (%s, tank leak + junction leaks active): %s: %s" % (mode, type(e).__name__, e))
-    out = {"wn": wn, "m": m, "mode": mode, "nodes": {}}
+    out = {"wn": wn, "m": m, "mode": mode, "nodes": {}, "updater": updater}
+    regs = {}
+    for (obj, attr), funcs in updater.update_functions.items():
+        for f in funcs:
+            cls = getattr(getattr(f, "__self__", None), "__name__", None)
+            if cls is None or getattr(f, "__name__", None) != "update":
+                raise BrokenTie("ModelUpdater holds an update function that is not a Definition.update classmethod: %r" % (f,))
+            regs.setdefault(getattr(obj, "name", None), []).append((str(attr), cls))
+    out["regs"] = {k: sorted(set(v)) for k, v in regs.items()}
     mbdict = m.pdd_mass_balance if mode == "PDD" else m.mass_balance
     for name in wn.junction_name_list + wn.tank_name_list:
         node = wn.get_node(name)
@@ -379,18 +557,82 @@ def reflect(wntr, mode, tank_leak=True):
     return out
 
 
-PDD_ROLES = ["head", "demand", "expected_demand", "pmin", "pnom", "elevation",
+PDD_ROLES = ["head", "demand", "expected_demand", "pmin", "pnom", "elevation", "pdd_delta",
              "pdd_poly1_coeffs_a", "pdd_poly1_coeffs_b", "pdd_poly1_coeffs_c", "pdd_poly1_coeffs_d",
              "pdd_poly2_coeffs_a", "pdd_poly2_coeffs_b", "pdd_poly2_coeffs_c", "pdd_poly2_coeffs_d"]
-PDD_FIELDS = ["head", "demand", "expected", "pmin", "pnom", "elev", "a1", "b1", "c1", "d1", "a2", "b2", "c2", "d2"]
-PDD_TAGS = ["var", "var"] + ["param"] * 12
+PDD_FIELDS = ["head", "demand", "expected", "pmin", "pnom", "elev", "delta", "a1", "b1", "c1", "d1", "a2", "b2", "c2", "d2"]
+PDD_TAGS = ["var", "var"] + ["param"] * 13
+
+
+VOCAB = ["minimum_pressure", "required_pressure", "pressure_exponent", "leak_status", "_is_isolated", "leak_area",
+         "leak_discharge_coeff", "elevation"]
+
+DEFS_PDD = [("constraint", "pdd_mass_balance_constraint", False), ("constraint", "pdd_constraint", False),
+            ("param", "pmin_param", False), ("param", "pnom_param", False), ("param", "pdd_poly_coeffs_param", False),
+            ("param", "elevation_param", False)]
+DEFS_LEAK = [("constraint", "leak_constraint", False), ("constraint", "leak_constraint", True),
+             ("param", "leak_coeff_param", False), ("param", "leak_coeff_param", True),
+             ("param", "leak_area_param", False), ("param", "leak_area_param", True),
+             ("param", "leak_poly_coeffs_param", False), ("param", "leak_poly_coeffs_param", True),
+             ("param", "elevation_param", False)]
+DEFS_MB = [("constraint", "mass_balance_constraint", False)]
+
+
+def record_reads(z, defs):
+    """which attributes of VOCAB the `build` of each Definition READS on a zoo junction (J011: leak active, own Preq and
+    exponent) / the tank: the node's class is swapped for a recording subclass while `build(index_over=[name])` runs"""
+    import wntr.sim.models.constraint as C
+    import wntr.sim.models.param as P
+
+    wn, m, upd = z["wn"], z["m"], z["updater"]
+    out = []
+    for modname, clsname, tank in defs:
+        D = getattr(C if modname == "constraint" else P, clsname, None)
+        if D is None:
+            raise BrokenTie("wntr.sim.models.%s has no Definition %s" % (modname, clsname))
+        name = "T" if tank else "J011"
+        node = wn.get_node(name)
+        base = type(node)
+        log = []
+
+        class Rec(base):
+            def __getattribute__(self, a, _log=log, _base=base):
+                _log.append(a)
+                return _base.__getattribute__(self, a)
+
+        node.__class__ = Rec
+        try:
+            D.build(m, wn, upd, index_over=[name])
+        finally:
+            node.__class__ = base
+        out.append((clsname, tank, sorted(set(a for a in log if a in VOCAB))))
+    return out
+
+
+def lean_str(x):
+    return '"%s"' % x
+
+
+def regs_lean(name, z, nodes):
+    wn = z["wn"]
+    ents = []
+    for n in nodes:
+        pairs = ", ".join("(%s, %s)" % (lean_str(a), lean_str(c)) for a, c in z["regs"].get(n, []))
+        ents.append("  { name := %s, tank := %s, regs := [%s] }" % (lean_str(n), str(n in wn.tank_name_list).lower(), pairs))
+    return "def %s : List NodeRegs := [\n%s\n]" % (name, ",\n".join(ents))
+
+
+def reads_lean(name, reads):
+    return "def %s : List DefReads := [\n%s\n]" % (
+        name, ",\n".join("  { cls := %s, tank := %s, reads := [%s] }" % (lean_str(c), str(t).lower(), ", ".join(lean_str(a) for a in r)) for c, t, r in reads))
 
 
 def gen_c07(wntr):
     pdd_c = _constants("pdd_constants")
     if set(pdd_c) != {"pdd_smoothing_delta", "pdd_slope"}:
         raise BrokenTie("pdd_constants defines %s" % sorted(pdd_c))
-    in1, in2, sel = trace_pdd_spline_inputs()
+    ptree, sel = trace_pdd_build()
+    ntree = trace_pnom_build()
     spline = trace_cubic_spline()
     z = reflect(wntr, "PDD", tank_leak=False)
     m, wn = z["m"], z["wn"]
@@ -408,16 +650,18 @@ def gen_c07(wntr):
         mp = idx.mapping()
         vals = {}
         for role in PDD_ROLES[3:5] + PDD_ROLES[6:]:
-            d = getattr(m, role)
+            d = getattr(m, role, None)
+            if d is None:
+                raise BrokenTie("the PDD model has no parameter dictionary m.%s" % role)
             vals[role] = float(d[name].value) if name in d else None
         ents.append(
-            "  { name := \"%s\", isolated := %s,\n    ownPmin := %s, ownPnom := %s, ownExp := %s,\n    ix := { %s },\n    pminVal := %s, pnomVal := %s,\n    row := %s }"
+            "  { name := \"%s\", isolated := %s,\n    ownPmin := %s, ownPnom := %s, ownExp := %s,\n    ix := { %s },\n    pminVal := %s, pnomVal := %s, deltaVal := %s,\n    row := %s }"
             % (
                 name,
                 str(rec["isolated"]).lower(),
                 _opt_rat(node.minimum_pressure), _opt_rat(node.required_pressure), _opt_rat(node.pressure_exponent),
                 ", ".join("%s := %d" % (f, i) for f, i in zip(PDD_FIELDS, ixs)),
-                _opt_rat(vals["pmin"]), _opt_rat(vals["pnom"]),
+                _opt_rat(vals["pmin"]), _opt_rat(vals["pnom"]), _opt_rat(vals["pdd_delta"]),
                 _opt_expr(rec["pdd"], mp),
             )
         )
@@ -442,11 +686,15 @@ def gen_c07(wntr):
         "/-- wntr.utils.polynomial_interpolation.cubic_spline, as executed -/",
         spline,
         "",
-        "/-- pdd_poly_coeffs_param.build: arguments of the first (lower band) cubic_spline call -/",
-        _inputs_def("pddSplineIn1", ["pmin", "pnom", "delta", "slope", "e"], in1),
+        "/-- pdd_poly_coeffs_param.build executed on symbolic numbers, every outcome of every comparison explored: `none` = ValueError,",
+        "else (value stored in m.pdd_delta[j], arguments of the lower-band cubic_spline call, arguments of the upper-band call) -/",
+        "def pddPolyBuild {α : Type} (O : Ops α) (pmin pnom delta slope e : α) :",
+        "    Option (α × (α × α × α × α × α × α) × (α × α × α × α × α × α)) :=",
+        tree_lean(ptree, lambda l: "%s,\n      (%s),\n      (%s)" % (sym_lean(l[0]), ", ".join(sym_lean(x) for x in l[1]), ", ".join(sym_lean(x) for x in l[2]))),
         "",
-        "/-- pdd_poly_coeffs_param.build: arguments of the second (upper band) cubic_spline call -/",
-        _inputs_def("pddSplineIn2", ["pmin", "pnom", "delta", "slope", "e"], in2),
+        "/-- pnom_param.build on a symbolic required pressure: `none` = ValueError, else the value of m.pnom[j] -/",
+        "def pnomBuild {α : Type} (O : Ops α) (pnom delta : α) : Option α :=",
+        tree_lean(ntree, lambda l: sym_lean(l)),
         "",
         "/-- which source pdd_poly_coeffs_param.build reads for each (own minimum_pressure?, own required_pressure?, own pressure_exponent?) -/",
         "def pddCoeffSel : List (Bool × Bool × Bool × Src × Src × Src) := [",
@@ -457,15 +705,21 @@ def gen_c07(wntr):
         "def varNames : List String := [%s]" % ", ".join('"%s"' % n for n in idx.var),
         "def paramNames : List String := [%s]" % ", ".join('"%s"' % n for n in idx.param),
         "",
-        "/-- `m.pdd[j]` of every junction of the zoo (create_hydraulic_model, PDD), with the values of `m.pmin[j]`, `m.pnom[j]` -/",
+        "/-- `m.pdd[j]` of every junction of the zoo (create_hydraulic_model, PDD), with the values of `m.pmin[j]`, `m.pnom[j]`, `m.pdd_delta[j]` -/",
         "def zoo : List PddZoo := [",
         ",\n".join(ents),
         "]",
         "",
+        "/-- what create_hydraulic_model registered with the ModelUpdater for every junction of the zoo (PDD) -/",
+        regs_lean("regs", z, wn.junction_name_list),
+        "",
+        "/-- which node attributes the build of each PDD Definition reads (recorded on junction J011) -/",
+        reads_lean("defReads", record_reads(z, DEFS_PDD)),
+        "",
         "end Wntr.Rows.GenC07",
         "",
     ]
-    return "\n".join(out), {"zoo": z, "info": info, "idx": idx, "sel": sel, "const": pdd_c}
+    return "\n".join(out), {"zoo": z, "info": info, "idx": idx, "sel": sel, "const": pdd_c, "regs": z["regs"]}
 
 
 def gen_c08(wntr):
@@ -476,6 +730,7 @@ def gen_c08(wntr):
     ents = []
     meta = {}
     names_all = {}
+    regs_txt, reads_all = [], []
     for mode in ("DD", "PDD"):
         z = reflect(wntr, mode)
         m, wn = z["m"], z["wn"]
@@ -516,6 +771,8 @@ def gen_c08(wntr):
             )
         names_all[mode] = idx
         meta[mode] = z
+        regs_txt.append(regs_lean("regs" + mode, z, wn.junction_name_list + wn.tank_name_list))
+        reads_all += [r for r in record_reads(z, DEFS_LEAK + (DEFS_MB if mode == "DD" else [DEFS_PDD[0]])) if r not in reads_all]
     out = [
         "-- GENERATED by harness/translate/rows_c07c08.py from wntr/sim/models/{constraint,param,constants}.py. Do not edit.",
         "import WntrModel.Model.Rows",
@@ -533,6 +790,12 @@ def gen_c08(wntr):
         "def zoo : List LeakZoo := [",
         ",\n".join(ents),
         "]",
+        "",
+        "/-- what create_hydraulic_model registered with the ModelUpdater for every junction and tank of the zoo -/",
+        "\n\n".join(regs_txt),
+        "",
+        "/-- which node attributes the build of each leak / mass-balance Definition reads (recorded on junction J011 / tank T) -/",
+        reads_lean("defReads", reads_all),
         "",
         "end Wntr.Rows.GenC08",
         "",
